@@ -1437,7 +1437,8 @@ pub fn gen_c04(rng: &mut Rng, d: &mut Dist, idx: u64) -> Vec<String> {
         let bits0 = (m0.len() - 12) * 8;
         let bits1 = (m1.len() - 12) * 8;
         let per_layout = (bits0 + bits1) as u64;
-        if idx < 3 * per_layout {
+        if idx % 2 == 0 && idx / 2 < 3 * per_layout {
+            let idx = idx / 2;
             let layout = idx / per_layout;
             let b = (idx % per_layout) as usize;
             let (mut a0, mut a1) = (m0.clone(), m1.clone());
